@@ -487,12 +487,20 @@ impl WCtx {
                 u()
             }
             "lccollect" => {
-                match self.pop_scoped() {
-                    Scoped::Coll(c, Some(x)) if c == pu(&t[1]) => {
+                // the collector may have open local spans above it (they are closed at the
+                // collection time); it is taken out of the scoped stack wherever it is
+                let id = pu(&t[1]);
+                let entry = {
+                    let mut sc = self.scoped.borrow_mut();
+                    let idx = sc.iter().rposition(|x| matches!(x, Scoped::Coll(c, _) if *c == id)).expect("lccollect handle");
+                    sc.remove(idx)
+                };
+                match entry {
+                    Scoped::Coll(_, Some(x)) => {
                         let ls = x.collect();
                         self.tables.lsets.lock().unwrap().insert(pu(&t[2]), ls);
                     }
-                    _ => panic!("harness: lccollect out of order"),
+                    _ => panic!("harness: lccollect on a collector in use"),
                 }
                 u()
             }
